@@ -8,6 +8,13 @@
 (* P-spec: GlobalState!Restored / HooksRestored as equalities of snapshots.  *)
 (* I-spec (DRIFT): the set of globals that differ from `before` while the    *)
 (*   tests run equals GlobalState!PredictedMid for these options.            *)
+(* The gc debug flags additionally travel as the names of the bits that are  *)
+(* set (before.gcDebugBits, ...): gbits = what -G named, v4 = --gc-after-test *)
+(* came with verbosity >= 4, win = the flags seen each time a piece of       *)
+(* garbage was printed by stopTest's cycle analysis, mid2 = snapshot inside  *)
+(* the last test (after earlier tests' analysis windows).  I-spec (DRIFT):   *)
+(* GlobalState!MidDebug while tests run, GlobalState!WinDebug in the window, *)
+(* and a window only with GlobalState!Window.                                *)
 EXTENDS Naturals, Sequences, FiniteSets, TLC, Json, IOUtils, SequencesExt
 
 Recs == JsonDeserialize(IOEnv.TRACE_FILE)
@@ -17,9 +24,14 @@ Next == UNCHANGED k
 Spec == Init /\ [][Next]_k
 
 G(r) == INSTANCE GlobalState WITH NTests <- 1, Deviations <- {}, PreChoices <- {},
+                                  OptUniverse <- {}, PreDebugChoices <- {}, GChoices <- {},
+                                  V4Choices <- {},
                                   Opts <- ToSet(r.opts), PreHooks <- r.pre,
+                                  PreDebug <- ToSet(r.before.gcDebugBits),
+                                  GBits <- ToSet(r.gbits), v4 <- r.v4,
                                   g <- 0, saved <- 0, pc <- 0, idx <- 0, t <- 0,
-                                  ending <- 0, exc <- 0, began <- 0, warnSaved <- 0
+                                  ending <- 0, exc <- 0, began <- 0, warnSaved <- 0,
+                                  gcSaved <- 0
 
 Verdict(r) ==
   LET GL == G(r)!Globals
@@ -29,11 +41,19 @@ Verdict(r) ==
       plain == bad \ (G(r)!HookGlobals \cup own)
       hooks == bad \cap G(r)!HookGlobals
       mid == {x \in GL : r.before[x] # r.mid[x]} \ {"warnFilters"}
+      midBits == {ToSet(r.mid.gcDebugBits), ToSet(r.mid2.gcDebugBits)}
+      winBits == {ToSet(w) : w \in ToSet(r.win)}
   IN IF ~r.began THEN <<"NOT-BEGUN", "">>
      ELSE IF plain # {} THEN <<"C18:not-restored", CHOOSE x \in plain : TRUE>>
      ELSE IF hooks # {} THEN <<"C18:caller-hook-not-restored", CHOOSE x \in hooks : TRUE>>
      ELSE IF r.hasMid /\ mid # G(r)!PredictedMid \ {"warnFilters"}
           THEN <<"DRIFT", ToString(mid)>>
+     ELSE IF r.hasMid /\ midBits # {G(r)!MidDebug}
+          THEN <<"DRIFT", "gc debug flags while tests run: " \o ToString(midBits)>>
+     ELSE IF winBits \notin {{}, {G(r)!WinDebug}}
+          THEN <<"DRIFT", "gc debug flags in the analysis window: " \o ToString(winBits)>>
+     ELSE IF winBits # {} /\ ~G(r)!Window
+          THEN <<"DRIFT", "analysis window without --gc-after-test -vvvv">>
      ELSE <<"", "">>
 
 Report == LET v == Verdict(Recs[k]) IN PrintT(<<"GLOB", Recs[k].id, v[1], v[2]>>)
